@@ -2,6 +2,9 @@ use std::{cell::Cell, marker::PhantomData, ptr::NonNull};
 
 mod cell;
 use self::cell::RecorderOnceCell;
+#[cfg(metrics_verif)]
+#[doc(hidden)]
+pub use self::cell::RecorderOnceCell as VerifRecorderOnceCell;
 
 mod errors;
 pub use self::errors::SetRecorderError;
